@@ -16,7 +16,7 @@ RULE = ('(a) DFS enumeration of every feasible completion order of fifo_stream f
         'and Stream.parmap(thread) with gated workers, n<=300, FIFO/LIFO/random/block-reversed completion policies, slow/fast '
         'consumer, schedule fuzzer on fifo_stream/feed/SingleLane/Parmapper.__iter__; (c) process executor with duration-carrying '
         'elements; (d) ParmapperAsync. non-trivial = at least one call completed before an earlier-submitted one; '
-        'distinct = distinct (configuration, completion order) pairs')
+        'distinct = distinct (configuration, completion order) pairs; (b2) stall profiles: source or consumer pausing 0.09-0.35 s / ~1 s at the first, a middle, the last element or after the end, with delay sites at every exception-handler entry (timed waits that just expired)')
 ASSUMPTIONS = ['completion orders of process-pool calls are driven by sleep durations, not by gates',
                'the settle heuristic of the controller only selects which orders are explored']
 CASE_TIMEOUT = 150
